@@ -178,6 +178,21 @@ func init() {
 		"crypto/rand.Read": func(e *Exec, st *State, fv FuncV, a []Value, cc *ssa.CallCommon) Value {
 			s := a[0].(SliceV)
 			n := int(e.concretize(st, s.len, "rand.Read length"))
+			inInit := e.buildingSnap
+			for _, f := range st.frames {
+				if f.fn != nil && (f.fn.Name() == "init" || strings.HasPrefix(f.fn.Name(), "init#")) {
+					inInit = true
+				}
+			}
+			if inInit {
+				// process-wide secrets drawn in package initialisers (the WHIP id cipher
+				// key): a fixed key; no property here depends on its value
+				for i := 0; i < n; i++ {
+					e.store(st, e.sliceElemPtr(s, e.c.Const(64, uint64(i))), e.c.Const(8, uint64(0x5a+7*i)&0xff))
+				}
+				e.res.noteOnce("stub: crypto/rand.Read inside a package initialiser yields fixed bytes (the WHIP id-obfuscation key is concrete)")
+				return TupleV{[]Value{e.c.Const(64, uint64(n)), IfaceV{}}}
+			}
 			for i := 0; i < n; i++ {
 				st.stubCalls++
 				e.store(st, e.sliceElemPtr(s, e.c.Const(64, uint64(i))), e.c.Fresh("rand", BV(8)))
